@@ -58,6 +58,10 @@ CHECKS.update({
    text="Runtime monitoring with gcc ThreadSanitizer (6 repetitions quick, 50 thorough; 2..16 threads on one JitAllocator and one JitRuntime plus a thread walking hook H2, and threads generating code with private objects whose bytes are compared with the single-threaded result) and the same workload under ASan with the C09 content/overlap oracle; TSan reports de-duplicated by outermost asmjit frame pair; evidence lists the (op, op) pairs observed overlapping in time.",
    design_ref="DESIGN.md section 2, C11", note="TSan sees only interleavings that occur; host information is initialised on the main thread first (the property's precondition).",
    technique="ThreadSanitizer + concurrent history monitor (interval set, owner stamps, hook H2)"),
+ "C12": dict(category="exploration",
+   text="Runtime monitoring by native execution: every host-executable x86-64 database form x several register assignments x random full machine images (GP, RFLAGS, x87/MMX, ZMM0-31, k0-7, guard-banded memory) is assembled by x86::Assembler and run between a state-load prologue and state-store epilogue; every changed byte/flag must be covered by InstAPI::query_rw_info (written operands, byte masks, zero extension, memory, flags); state reported as not read is perturbed and the instruction re-run (defined results identical); kRegMem/rm_size replacement forms are validated, assembled and executed for equal results; reported features vs host CPUID/SIGILL and the database ext; consecutive-register runs on x86 and AArch64 register lists; API answers vs the database record for every form under ASan, and the generated tables re-derived with the repository's tablegen on a scratch copy and compared.",
+   design_ref="DESIGN.md section 2, C12", note="Execution oracle covers only forms the sandbox CPU executes in ring 3 (others: table/database comparison only); undefined flags per the database are not judged.",
+   technique="native-execution state-diff monitor + sanitizer build + generated-table differential"),
  "C14": dict(category="exploration",
    text="Runtime monitoring under ASan+UBSan: 2.3e5 (quick) arbitrary (id, options, extra register, operands) tuples per run through x86 Assembler/Builder/Compiler with returning, throwing and absent error handlers; for every failing call the driver records byte/label/fixup/relocation/section/node deltas, one-shot state and handler invocations; successful calls go to the C01 oracles; probe programs emitted between failures and at the end are compared with a fresh emitter; a second driver interleaves valid and invalid label/section/align/data API calls on x86 and AArch64.",
    design_ref="DESIGN.md section 2, C14", note="Arbitrary operand kinds on x86 only (AArch64 has no operand validator; its perturbed-operand refusal is judged in C02).",
